@@ -299,6 +299,33 @@ func checkC02Tags(p *Prog, r *Report, md *ssa.Function) {
 		_, fl, okf := fieldLoad(unbox(mu.Value))
 		good := okf && etags[fl] == k
 		seen[fl] = true
+		// the presence test of a member looks at that member's own field
+		if okf {
+			for _, ef := range factsAt(mu.Block()) {
+				other := ""
+				var walk func(v ssa.Value, depth int)
+				walk = func(v ssa.Value, depth int) {
+					if depth > 6 || v == nil {
+						return
+					}
+					if _, f2, ok := fieldLoad(v); ok {
+						if f2 != fl {
+							other = f2
+						}
+						return
+					}
+					if ins, ok := v.(ssa.Instruction); ok {
+						for _, op := range ins.Operands(nil) {
+							if *op != nil {
+								walk(*op, depth+1)
+							}
+						}
+					}
+				}
+				walk(ef.Cond, 0)
+				r.decide(other == "", "R5.tag-tables", "Error:"+k+":own-guard", p.pos(mu.Pos()), "emitted depending on its own field only", fmt.Sprintf("the error member %q is emitted depending on field %s, not on its own field %s: errors lose that member (or get an empty one) on the round trip", k, other, fl))
+			}
+		}
 		r.decide(good, "R5.tag-tables", "Error:"+k, p.pos(mu.Pos()), "Error."+fl+" written under its own json tag", fmt.Sprintf("Error.MarshalJSON writes member %q from field %s whose json tag is %q: it does not come back into that field", k, fl, etags[fl]))
 	})
 	for fl := range etags {
